@@ -836,3 +836,44 @@ def cmp_canon(body, g):
     if ra > rb:
         ra, rb, op = rb, ra, _SWAP[op]
     return "%s %s %s" % (ra, op, rb)
+
+
+def bool_switches(body, local):
+    """switch blocks that branch on the bool in `local`, following copies and `!`: [(switch_blk, negated)]"""
+    vals = {local: False}
+    changed = True
+    while changed:
+        changed = False
+        for (i, j, p, rv, line) in body.assigns():
+            if len(p) != 1 or p[0] in vals:
+                continue
+            if rv[0] == "use":
+                q = op_place(rv[1])
+                if q is not None and len(q) == 1 and q[0] in vals:
+                    vals[p[0]] = vals[q[0]]
+                    changed = True
+            elif rv[0] == "un" and rv[1] == "Not":
+                q = op_place(rv[2])
+                if q is not None and len(q) == 1 and q[0] in vals:
+                    vals[p[0]] = not vals[q[0]]
+                    changed = True
+    out = []
+    for sb in body.live_blocks():
+        t = body.term(sb)
+        if t["t"] == "switch":
+            q = op_place(t["on"])
+            if q is not None and len(q) == 1 and q[0] in vals:
+                out.append((sb, vals[q[0]]))
+    return out
+
+
+def runs_only_when(body, local, truth, target):
+    """`target` executes only on paths where the bool `local` had value `truth` at some switch on it that dominates target"""
+    for (sb, neg) in bool_switches(body, local):
+        if not body.dominates(sb, target) or sb == target:
+            continue
+        tr, fa = switch_edges_on_local(body, sb)
+        want, other = (tr, fa) if (truth != neg) else (fa, tr)
+        if want and target not in body.reachable_from(list(other), avoid={sb}) and target in body.reachable_from(list(want), avoid={sb}):
+            return True
+    return False
